@@ -272,6 +272,12 @@ class FakeTRX(Transceiver):
 		elif self.ctrl_if.verify_cmd(request, "FAKE_TOA", 2):
 			log.debug("(%s) Recv FAKE_TOA cmd" % self)
 
+			# The randomization threshold cannot be negative
+			if int(request[2]) < 0:
+				log.error("(%s) FAKE_TOA threshold shall not "
+					"be negative" % self)
+				return -1
+
 			# Parse and apply both base and threshold
 			self.toa256_base = int(request[1])
 			self.toa256_rand_threshold = int(request[2])
@@ -315,6 +321,12 @@ class FakeTRX(Transceiver):
 		# Absolute form: CMD FAKE_CI <BASE> <THRESH>
 		elif self.ctrl_if.verify_cmd(request, "FAKE_CI", 2):
 			log.debug("(%s) Recv FAKE_CI cmd" % self)
+
+			# The randomization threshold cannot be negative
+			if int(request[2]) < 0:
+				log.error("(%s) FAKE_CI threshold shall not "
+					"be negative" % self)
+				return -1
 
 			# Parse and apply both base and threshold
 			self.ci_base = int(request[1])
